@@ -50,6 +50,7 @@ def units(tier, seed):
         us.append({'kind': 'entries', 'names': names[i:i + CHUNK_E], 'tier': tier, 'seed': seed})
     us.append({'kind': 'zero', 'tier': tier, 'seed': seed})
     us.append({'kind': 'cmp', 'tier': tier, 'seed': seed})
+    us.append({'kind': 'select', 'tier': tier, 'seed': seed})
     us.append({'kind': 'high', 'tier': tier, 'seed': seed})
     progs = programs(tier)
     for i in range(0, len(progs), CHUNK_P):
@@ -291,6 +292,42 @@ def run_cmp(u, out):
                             break
 
 
+def run_select(u, out):
+    """selection by the zeroth coefficient (UTPM.max, minimum, maximum): which element is selected is decided at order 0, so
+    it cannot depend on higher coefficients - not even on non-finite ones of the selected element"""
+    for n in (2, 3):
+        for k in range(n):
+            for bad in (np.nan, np.inf, -np.inf):
+                for D in (2, 3, 4):
+                    for where in range(1, D):
+                        X = np.zeros((D, 2, n))
+                        X[0, 0] = np.arange(n) * 0.5
+                        X[0, 0, k] = 5.0
+                        X[0, 1] = X[0, 0][::-1]
+                        X[1:] = 0.25
+                        X[where, 0, k] = bad
+                        funcs = [('UTPM.max', lambda a: UTPM.max(a)), ('maximum', lambda a: algopy.maximum(a, a[::-1] * 1.0)),
+                                 ('minimum', lambda a: algopy.minimum(-a, -(a[::-1] * 1.0)))]
+                        for nm, f in funcs:
+                            case = {'kind': 'select', 'name': nm, 'n': n, 'k': k, 'bad': str(bad), 'D': D, 'where': where}
+                            try:
+                                full = f(UTPM(X.copy())).data
+                            except Exception:
+                                continue
+                            for Dp in range(1, where + 1):
+                                out['evals'] += 1
+                                out['keys'].append('select|%s|%d|%d|%s|%d|%d|%d' % (nm, n, k, bad, D, where, Dp))
+                                try:
+                                    tr = f(UTPM(X[:Dp].copy())).data
+                                except Exception:
+                                    continue
+                                why, w = cmp_low(full, tr, Dp)
+                                if why:
+                                    out['fails'].append({'sig': 'C12|%s|selection depends on a higher non-finite coefficient' % nm, 'case': dict(case, Dp=Dp),
+                                                         'detail': {'why': why}})
+                                    break
+
+
 def run_unit(u):
     out = {'evals': 0, 'keys': [], 'fails': [], 'samples': [], 'counters': {}, 'maxima': {}}
     if u['kind'] == 'entries':
@@ -302,6 +339,8 @@ def run_unit(u):
         run_zero(u, out)
     elif u['kind'] == 'cmp':
         run_cmp(u, out)
+    elif u['kind'] == 'select':
+        run_select(u, out)
     elif u['kind'] == 'high':
         run_high(u, out)
     else:
@@ -321,6 +360,9 @@ def replay(case):
     elif case['kind'] == 'high':
         run_high({'tier': 'thorough', 'seed': case.get('seed', 0)}, out)
         out['fails'] = [f for f in out['fails'] if f['case']['name'] == case['name'] and f['case']['D'] == case['D']]
+    elif case['kind'] == 'select':
+        run_select({}, out)
+        out['fails'] = [f for f in out['fails'] if all(f['case'].get(k) == case.get(k) for k in ('name', 'n', 'k', 'bad', 'D', 'where'))]
     elif case['kind'] == 'cmp':
         run_cmp({}, out)
         out['fails'] = [f for f in out['fails'] if all(f['case'].get(k) == case.get(k) for k in ('op', 'sa', 'sb', 'pattern', 'D', 'P'))]
